@@ -50,7 +50,7 @@ class Model:
         for n, d in sorted(self.c["units"].items(), key=lambda kv: (not kv[1]["base"], kv[0])):
             if not d["prefixed"]:
                 out.append(self.unit_line(n, d))
-        for name, s in self.c["systems"].items():
+        for name, s in (self.c["systems"].items() if isinstance(self.c["systems"], dict) else []):
             out += ["@system %s" % name, "    %s" % s["new"], "@end"]
         return out
 
@@ -289,7 +289,7 @@ def random_histories(model, rng, ntraces, length, dense, tid0=0):
             elif r < 0.50 and st.cms:
                 op = ["with_exit", rng.choice(["normal", "raise"])]
             elif r < 0.62:
-                op = ["disable", rng.choice([1, 1, 2])]
+                op = ["disable", rng.choice([1, 1, 2, 0])]
             elif r < 0.68 and not defined:
                 op = ["define", "new1"]
                 defined = True
@@ -372,3 +372,34 @@ def validate_histories(chk, events, label="pint-trace", chunk=3000):
         os.remove(path)
         i = j
     return bad
+
+
+# ---------------------------------------------------------------------------------------------- definition-file form
+def context_lines(model, name, alias=None):
+    """The pool entry as an @context block (valid contexts only): equations written in the base units of the dimensions."""
+    c = model.c["ctxs"][name]
+    default = fr(c["default"])
+    head = "@context%s %s%s" % ("(p=%s)" % default if default != 0 else "", name, " = " + alias if alias else "")
+    out = [head]
+    for r in c["rules"]:
+        bs = model.base_of[tuple(sorted((k, tuple(v)) for k, v in r["src"]))]
+        bd = model.base_of[tuple(sorted((k, tuple(v)) for k, v in r["dst"]))]
+        eq = "%s * value" % fr(r["coef"])
+        if r["pexp"] == 1:
+            eq += " * p"
+        elif r["pexp"] == -1:
+            eq += " / p"
+        eq += " * %s / %s" % (bd, bs)
+        out.append("    %s -> %s: %s" % (fmt_cont(cont(r["src"])), fmt_cont(cont(r["dst"])), eq))
+    for rd in c["redefs"]:
+        out.append("    %s = %s * %s" % (rd["unit"], fr(rd["scale"]), fmt_cont(cont(rd["ref"]))))
+    out.append("@end")
+    return out
+
+
+def registry_from_text(model, T=F):
+    import pint
+    lines = model.lines()
+    for name in model.c["ctxs"]:
+        lines += context_lines(model, name, alias=name.lower() + "_alias")
+    return pint.UnitRegistry(lines, non_int_type=T)
